@@ -113,6 +113,8 @@ func (it Item) label() string {
 		return s
 	case "run":
 		return "run:" + it.C
+	case "rep":
+		return it.C + "*16"
 	case "pass":
 		return "pass:" + it.C + ":len=" + it.N + ":" + it.T
 	case "fix":
@@ -153,6 +155,29 @@ func (s *Scn) HostileClassFor(kind string) string {
 		return s.Items[n-1].label()
 	}
 	isAdEp := s.Fam == "ad" || s.Ep == "SrvFirst" || s.Ep == "CliServerAd"
+	// budget accumulation: units of 0.6 x cap that fit one by one but not together
+	var acc []string
+	for i, it := range s.Items {
+		switch {
+		case it.K == "rep":
+			acc = append(acc, it.label())
+		case it.K == "str" && it.N == "p60":
+			if i > 0 && s.Items[i-1].K == "str" && s.Items[i-1].C == "marker" {
+				acc = append(acc, "sec")
+			} else {
+				acc = append(acc, "ord")
+			}
+		}
+	}
+	if len(acc) > 0 {
+		lab := "accum:" + strings.Join(acc, "+")
+		for _, it := range s.Items {
+			if it.K == "int" && it.C == "i32max" {
+				lab += ",count=i32max"
+			}
+		}
+		return lab
+	}
 	best, bestRank := "", 0
 	sizeBonus, numBonus := 0, 0
 	switch kind {
